@@ -1430,6 +1430,29 @@ class ForAll(BinaryOperator):
             required_vars = required_vars.union(self.variable._unique_variables_)
         return required_vars
 
+    @staticmethod
+    def _most_general_bindings_(bindings: List[Dict[int, HashedValue]]) -> List[Dict[int, HashedValue]]:
+        """
+        Remove repeated bindings and bindings that only extend another (more general) one. A binding that leaves a
+        variable unbound stands for all values of that variable, which is what a disjunction yields for the side that
+        does not mention the variable.
+        """
+        unique = list({tuple(sorted(b.items(), key=lambda kv: kv[0])): b for b in bindings}.values())
+        return [b for b in unique
+                if not any(g is not b and len(g) < len(b) and all(k in b and b[k] == v for k, v in g.items())
+                           for g in unique)]
+
+    @classmethod
+    def _intersect_bindings_(cls, first: List[Dict[int, HashedValue]],
+                             second: List[Dict[int, HashedValue]]) -> List[Dict[int, HashedValue]]:
+        """
+        Intersect two sets of (possibly partial) bindings: two bindings that agree on the variables they share are
+        unified, for fully bound sets this is the plain intersection.
+        """
+        unified = [{**a, **b} for a in first for b in second
+                   if all(b[k] == v for k, v in a.items() if k in b)]
+        return cls._most_general_bindings_(unified)
+
     def _evaluate__(self, sources: Optional[Dict[int, HashedValue]] = None,
                     yield_when_false: bool = False) -> Iterable[Dict[int, HashedValue]]:
         sources = sources or {}
@@ -1458,11 +1481,10 @@ class ForAll(BinaryOperator):
 
             if var_val_index == 0:
                 # seed with all satisfying non-universal bindings
-                self.solution_set = current
+                self.solution_set = self._most_general_bindings_(current)
             else:
                 # Intersect with previously accumulated satisfying bindings
-                current_set = {tuple(sorted(d.items())) for d in current}
-                self.solution_set = [d for d in self.solution_set if tuple(sorted(d.items())) in current_set]
+                self.solution_set = self._intersect_bindings_(self.solution_set, current)
 
             var_val_index += 1
 
